@@ -60,13 +60,20 @@ type Meta struct {
 	HasList bool                // the store list file exists
 	Infos   map[string]string   // store name -> "slot unique count root" for every sub-folder with a storeinfo.txt
 	Handles map[string][]sop.Handle // registry table -> live handle records decoded from its segment files
+	HashMod string              // reghashmod.txt content (the persisted registry hash modulus) or "-"
 	Status  string              // replstat.txt content or "-"
 	Logs    []string            // commit-change log files
 }
 
 // ReadMeta decodes the metadata files under base.
 func ReadMeta(base string) (*Meta, error) {
-	m := &Meta{Infos: map[string]string{}, Handles: map[string][]sop.Handle{}, Status: "-"}
+	m := &Meta{Infos: map[string]string{}, Handles: map[string][]sop.Handle{}, Status: "-", HashMod: "-"}
+	if b, err := os.ReadFile(filepath.Join(base, fs.RegistryHashModValueFilename)); err == nil {
+		m.HashMod = strings.TrimSpace(string(b))
+		if m.HashMod == "" || strings.ContainsAny(m.HashMod, " \t\n") {
+			m.HashMod = "unreadable"
+		}
+	}
 	if b, err := os.ReadFile(filepath.Join(base, "storelist.txt")); err == nil {
 		m.HasList = true
 		if err := json.Unmarshal(b, &m.List); err != nil {
@@ -163,7 +170,8 @@ func (m *Meta) Render(c *Canon) string {
 		sort.Strings(hs)
 		b.WriteString(t + "=" + strings.Join(hs, ","))
 	}
-	b.WriteString("] st=" + FlagBits(m.Status))
+	b.WriteString("] hm=" + m.HashMod)
+	b.WriteString(" st=" + FlagBits(m.Status))
 	return b.String()
 }
 
@@ -193,6 +201,95 @@ func Bits(d fs.ReplicationTrackedDetails) string {
 func (c *Canon) Image(h sop.Handle) string {
 	s := c.Handle(h)
 	return s[strings.Index(s, "/")+1:]
+}
+
+// ---- the folder as a set of files, by kind ----
+
+// FileKind classifies a path relative to a base folder. Replicated kinds: "list" (storelist.txt), "hashmod"
+// (reghashmod.txt), "info" (<store>/storeinfo.txt), "segment" (<table>/*.reg). Per-folder by design: "status"
+// (replstat.txt), "log" (commitlogs/*). Anything else is "other": a file the code persisted that this harness does
+// not know — it is compared too, so a new kind of file that is not replicated shows up.
+func FileKind(rel string) string {
+	rel = filepath.ToSlash(rel)
+	switch {
+	case rel == "storelist.txt":
+		return "list"
+	case rel == fs.RegistryHashModValueFilename:
+		return "hashmod"
+	case rel == "replstat.txt":
+		return "status"
+	case strings.HasPrefix(rel, "commitlogs/"):
+		return "log"
+	case strings.HasSuffix(rel, "/"+fs.StoreInfoFilename) && strings.Count(rel, "/") == 1:
+		return "info"
+	case strings.HasSuffix(rel, ".reg") && strings.Count(rel, "/") == 1:
+		return "segment"
+	}
+	return "other"
+}
+
+// FileSet lists the regular files under base as "kind:relative path" (sorted), and the raw content of the small
+// whole-file kinds (list, hashmod) keyed the same way.
+func FileSet(base string) (paths []string, content map[string]string) {
+	content = map[string]string{}
+	filepath.Walk(base, func(p string, st os.FileInfo, err error) error {
+		if err != nil || st.IsDir() {
+			return nil
+		}
+		rel, _ := filepath.Rel(base, p)
+		rel = filepath.ToSlash(rel)
+		k := FileKind(rel)
+		key := k + ":" + rel
+		paths = append(paths, key)
+		if k == "list" || k == "hashmod" {
+			b, _ := os.ReadFile(p)
+			content[key] = string(b)
+		}
+		return nil
+	})
+	sort.Strings(paths)
+	return
+}
+
+// DiffFileSets compares two base folders by replicated kind ("list", "hashmod", "info", "segment", and "other"):
+// the sets of relative paths must be equal and the whole-file kinds byte-identical. "" = equal; otherwise the first
+// few differences.
+func DiffFileSets(a, b string) string {
+	pa, ca := FileSet(a)
+	pb, cb := FileSet(b)
+	rep := func(k string) bool { return !strings.HasPrefix(k, "status:") && !strings.HasPrefix(k, "log:") }
+	sa, sb := map[string]bool{}, map[string]bool{}
+	for _, k := range pa {
+		if rep(k) {
+			sa[k] = true
+		}
+	}
+	for _, k := range pb {
+		if rep(k) {
+			sb[k] = true
+		}
+	}
+	var out []string
+	for _, k := range pa {
+		if rep(k) && !sb[k] {
+			out = append(out, "only in first folder "+k)
+		}
+	}
+	for _, k := range pb {
+		if rep(k) && !sa[k] {
+			out = append(out, "only in second folder "+k)
+		}
+	}
+	for k, v := range ca {
+		if w, ok := cb[k]; ok && w != v {
+			out = append(out, fmt.Sprintf("content of %s differs: %q vs %q", k, v, w))
+		}
+	}
+	sort.Strings(out)
+	if len(out) > 6 {
+		out = append(out[:6], fmt.Sprintf("… %d more", len(out)-6))
+	}
+	return strings.Join(out, "; ")
 }
 
 // ---- real filesystem faults ----
